@@ -84,7 +84,7 @@ PROPS["C06"] = dict(
     design_ref="DESIGN.md §6 C06",
     rule="every leaf count n in 1..=300 (quick) / 1..=1100 (thorough), 2^k-2..2^k+2 for k <= 12 / 16, generated blocks with hash counts around powers of two, block 202612.",
     assumptions=["count <= 2^28 (the code's own assert; guaranteed for parsed blocks by the allocation cap)"],
-    gen_items=[],
+    gen_items=["correctId202612", "existingId202612"],
 )
 
 PROPS["C03"] = dict(
